@@ -468,7 +468,7 @@ def prefixes(src):
 FINDING_IDS = {
     "tail-call-arg": "F1", "union-to-generic": "F2", "nil-binder": "F27", "stale-narrowing": "F53",
     "match-provenance": "F54", "recursive-binder": "F59",
-    "nil-through-type-test": "F13c01", "failed-match-binder": "C01-failed-match-binder", "tail-branch-never": "F66",
+    "nil-through-type-test": "F13c01", "failed-match-binder": "F74", "tail-branch-never": "F66",
     "unify-recursive-tail": "F67", "partial-position": "F68", "implicit-nil-application": "F58",
 }
 
@@ -1094,6 +1094,23 @@ def run(ctx):
 
     oracle = Oracle(ctx, typed, drv)
     clf = Classifier(oracle)
+    if getattr(ctx, "replay_path", None):
+        # ./check C01 --replay <file>: re-judge the recorded source on the current tree
+        import json
+        obj = json.load(open(ctx.replay_path))
+        src = obj.get("source") or obj.get("original_source") or ""
+        mods = [tuple(m) for m in obj.get("modules", [])]
+        rec = oracle.run_sources([dict(src=src, mods=mods, origin="replay")])[0]
+        cov["replay"] = {"status": rec["status"], "verdict": rec["verdict"], "failure": rec["failure"], "raw": rec["raw"]}
+        print("replay: status=%s verdict=%s failure=%s" % (rec["status"], rec["verdict"], rec["failure"]))
+        if rec["failure"]:
+            names = clf.classify(src, mods, rec["failure"]) or [None]
+            for nm in names:
+                ctx.violation({"kind": "impl-violation", "oracle": rec["failure"]["kind"], "finding_signature": nm,
+                               "source": src, "modules": mods, "failure": rec["failure"]},
+                              finding_key=FINDING_IDS.get(nm, nm) if nm else None)
+        cov["evaluations"] = 1
+        return
     from vplib import testsrc
     from vplib.props import c01gen
 
